@@ -67,7 +67,7 @@ def main():
         demo = os.path.join(dest, "demo.py")
         # the demo may refer to its own worktree path; run it from the scratch tree
         src = open(demo).read()
-        src2 = re.sub(r"/tmp/seed2?/C\d+[a-z]?", tree, src)
+        src2 = re.sub(r"/tmp/seed\d?/C\d+[a-z]?", tree, src)
         # keep the demo where its author ran it (<worktree>/seed_out/<n>/demo.py): some
         # demos locate the repository relative to their own path
         os.makedirs(os.path.join(tree, "seed_out", "x"), exist_ok=True)
